@@ -76,6 +76,8 @@ ReqInit(c) ==
     finalExcused |-> FALSE,    \* a forwarding read failed after the stop request
     fwdFailed|-> FALSE,        \* a forwarding read of this session failed (its transmit-error count is then not predicted)
     tgate    |-> FALSE,        \* the driver holds the terminator's mutex (a signal is being delivered under Serve)
+    lastDialT|-> -1,           \* instant of the latest dial attempt
+    nBurst   |-> 0,            \* dial attempts at that same instant, each following a session that a fault ended
     nRead    |-> 0,            \* forwarding reads on the advertiser's own paths since the last quiescent point
     nUse     |-> 0,            \* RA generations that are called for since then: transmissions + valid RAs to compare with
     readFail |-> FALSE,        \* one of those reads failed (its generation is then not accounted)
@@ -104,7 +106,11 @@ Deadlines(m, T) ==
 \* both classes were seen on one connection the first one reported wins a race, so either outcome is allowed.
 OnDial(m, e) ==
   LET m0 == IF m.postDone /\ m.doneCls = {"fatal"} THEN Flag(m, "c10-task-retried-after-unrecoverable-fault") ELSE m
-      mp == [m0 EXCEPT !.postDone = FALSE, !.doneCls = {}] IN
+      \* the back-off only separates FAILED dial attempts: when every dial succeeds and the task fails at once each time
+      \* the task is re-established again and again without any delay (known finding, see known_findings.json)
+      burst == IF e.t = m.lastDialT /\ m.postDone /\ m.doneCls # {} THEN m.nBurst + 1 ELSE 1
+      m0b == IF burst = 4 /\ m.cancelAt = -1 THEN Flag(m0, "c10-redial-loop-without-backoff") ELSE m0
+      mp == [m0b EXCEPT !.postDone = FALSE, !.doneCls = {}, !.lastDialT = e.t, !.nBurst = burst] IN
   IF e.res # "ok" THEN mp
   ELSE LET m1 == IF Up(mp) THEN Flag(mp, "c11-dial-while-connection-open") ELSE mp IN
        [m1 EXCEPT !.fcls = {}, !.k = e.k, !.nW = 0, !.credit = 1, !.dialT = e.t, !.lastTrig = -1, !.prevReq = -1, !.lastMc = -1, !.owedM = {}, !.owedU = <<>>, !.pend = <<>>,
